@@ -123,6 +123,25 @@ theorem send_invitation_accepts_documented (T : Tables) (hl : T.languages = docu
 
 example : "nl" ∈ documentedLanguages ∧ "fr-CA" ∈ documentedLanguages ∧ "nlfr-CA" ∉ documentedLanguages := by decide
 
+/-- the message limit is a limit in CHARACTERS (code points), whatever character is used and whatever the size of the
+    encoded text is: `n` copies of any character `c` are accepted iff `n < 0xC0` (tie: harness/c18_unicode.py runs the
+    width grid - 1-, 2-, 3-, 4-byte characters at every count where characters / UTF-8 bytes / UTF-16 units cross 0xC0 -
+    on the real client and on this model) -/
+theorem send_invitation_limit_counts_characters (T : Tables) (hl : T.languages = documentedLanguages) (s : Five)
+    (tok lang : String) (c : Char) (n : Nat) :
+    (∃ r, Five.call T s (.sendInvitation tok [1] 1 1 [] [(lang, String.ofList (List.replicate n c))] false 0) = .ok r) ↔
+      lang ∈ documentedLanguages ∧ n < 0xC0 := by
+  rw [sendInvitation_ok_iff, hl]; simp [String.length_ofList]
+
+/-- non-trivial point: 0xBF four-byte characters (0x2FC bytes of UTF-8) are below the limit, 0x30 of them already are 0xC0 bytes -/
+example : (String.ofList (List.replicate 0xBF (Char.ofNat 0x1F600))).utf8ByteSize = 0x2FC ∧ (String.ofList (List.replicate 0x30 (Char.ofNat 0x1F600))).utf8ByteSize = 0xC0 := by
+  decide +kernel
+
+/-- a tag that merely folds / normalises to a documented one is not documented: Kelvin sign + `o`, full-width `ja`,
+    `es-` + Arabic-Indic 419, `zh` + U+2010 + `Hans` -/
+example : "\u212Ao" ∉ documentedLanguages ∧ "\uFF4A\uFF41" ∉ documentedLanguages ∧ "es-\u0664\u0661\u0669" ∉ documentedLanguages ∧
+    "zh\u2010Hans" ∉ documentedLanguages := by decide
+
 /-- baas `login`: `na_country` is required from 18.0.0 on and only then -/
 theorem login_country_required_iff (v id : Nat) (pw acc : String) (app country : Option String) (skip : Bool) :
     (∃ p, Baas.plan v (.login id pw acc app country skip) = .ok p) ↔ (v < 1800 ∨ country.isSome) :=
